@@ -19,6 +19,7 @@ import json
 import logging
 import lzma
 import os
+import re
 import struct
 import tarfile
 import zipfile
@@ -137,7 +138,15 @@ def drive(data: bytes, path):
 
 
 def canon(r):
-    return json.dumps(r.to_json(), sort_keys=True, ensure_ascii=True)
+    """to_json without what is not content of the member: object addresses inside pypdf reprs and the
+    'now' timestamps some extractors put into created/modified when the document has none (C06's subject)."""
+    j = r.to_json()
+    md = j.get("metadata") if isinstance(j, dict) else None
+    if isinstance(md, dict):
+        for k in ("created", "modified"):
+            md.pop(k, None)
+    t = json.dumps(j, sort_keys=True, ensure_ascii=True)
+    return re.sub(r"IndirectObject\((\d+), (\d+), \d+\)", r"IndirectObject(\1, \2)", t)
 
 
 def direct(name, data, apath):
@@ -681,6 +690,8 @@ def run(ctx):
         fmt = rng.choice([tarfile.PAX_FORMAT, tarfile.GNU_FORMAT, tarfile.USTAR_FORMAT])
         if fmt == tarfile.USTAR_FORMAT:
             members = [m for m in members if all(ord(c) < 128 for c in m[0])]
+        if comp == "" and not members:
+            members = [("only.txt", "data", b"only member\n")]
         withsym = list(members)
         if rng.random() < 0.3:
             withsym.insert(rng.randint(0, len(withsym)), ("link%d.txt" % i, "symlink", b""))
